@@ -49,11 +49,44 @@ theorem authorizeSign_tok (prov : Prov) (hp : prov = .jwk ∨ prov = .x5c) (t : 
         injection h with h
         exact ⟨opts, ct, rfl, hc, h.symm⟩
 
+/-- what a Nebula plan looks like: default template, host type, key id and principals from the
+    token's options when present (and then every principal certified by the Nebula certificate),
+    else the subject and the certificate's name and addresses -/
+theorem authorizeClaims_nebula {t : Token} {o : Oidc} {p : Plan} (h : authorizeClaims .nebula t o = .ok p) :
+    p.tpl = .default ∧ p.data.ct = .host ∧
+    ((t.ssh = none ∧ p.data.keyID = t.sub ∧ p.data.principals = o.nebName :: o.nebIPs) ∨
+     (∃ opts, t.ssh = some opts ∧ nebPrincipalsValid o opts.principals = true ∧
+        (opts.certType = [] ∨ opts.certType = sHost) ∧
+        p.data.keyID = (if opts.keyID = [] then t.sub else opts.keyID) ∧
+        p.data.principals = (if opts.principals.length > 0 then opts.principals else o.nebName :: o.nebIPs))) := by
+  simp only [authorizeClaims] at h
+  cases hs : t.ssh with
+  | none =>
+    simp only [hs] at h
+    injection h with h; subst h
+    exact ⟨rfl, rfl, .inl ⟨rfl, rfl, rfl⟩⟩
+  | some opts =>
+    simp only [hs] at h
+    split at h
+    · cases h
+    · rename_i hv
+      split at h
+      · cases h
+      · rename_i hc
+        injection h with h; subst h
+        refine ⟨rfl, rfl, .inr ⟨opts, rfl, by simpa using hv, ?_, rfl, rfl⟩⟩
+        by_cases h1 : opts.certType = []
+        · exact .inl h1
+        · by_cases h2 : opts.certType = sHost
+          · exact .inr h2
+          · exact absurd ⟨h1, h2⟩ hc
+
 theorem signSSH_issued {ca : CAKeys} {p : Plan} {req : Opts} {key : KeyClass} {c : Cert} {sg : Signer}
     (h : signSSH ca p req key = .issued c sg) :
     validateOpts req = true ∧ checkOpts req p.checks = none ∧ applyTemplate p req = .cert c ∧
     selectSigner ca c.ct 500 = .inr sg ∧ keyStatus key = none ∧ c.keyID ≠ [] ∧
-    storeOK ca c.principals = true := by
+    storeOK ca c.principals = true ∧
+    (ca.emptyPrincipalCheck = true → [] ∉ c.principals) := by
   unfold signSSH at h
   split at h
   · cases h
@@ -74,10 +107,12 @@ theorem signSSH_issued {ca : CAKeys} {p : Plan} {req : Opts} {key : KeyClass} {c
             · cases h
             · split at h
               · cases h
-              · rename_i hid hst
-                injection h with h1 h2
-                subst h1 h2
-                exact ⟨by simpa using hv, hc, ht, hs, hk, hid, by simpa using hst⟩
+              · split at h
+                · cases h
+                · rename_i hid hep hst
+                  injection h with h1 h2
+                  subst h1 h2
+                  exact ⟨by simpa using hv, hc, ht, hs, hk, hid, by simpa using hst, by simpa using hep⟩
 
 theorem sshSign_issued {ca : CAKeys} {prov : Prov} {t : Token} {o : Oidc} {req : Opts} {key : KeyClass}
     {c : Cert} {sg : Signer} (h : sshSign ca prov t o req key = .issued c sg) :
@@ -120,9 +155,62 @@ theorem ssh_cert_fields (ca : CAKeys) (prov : Prov) (hp : prov = .jwk ∨ prov =
   exact ⟨opts, ct, h1, h2, ht.symm⟩
 
 example :
-    sshSign ⟨true, true, true⟩ .jwk ⟨s "alice", some ⟨s "host", [], [s "a.example.com", s "b.example.com"]⟩⟩ ⟨[], []⟩
+    sshSign ⟨true, true, true, false⟩ .jwk ⟨s "alice", some ⟨s "host", [], [s "a.example.com", s "b.example.com"]⟩⟩ ⟨[], [], [], [], []⟩
       ⟨[], s "attacker", [s "A.example.com"]⟩ .ok
     = .issued ⟨2, s "alice", [s "a.example.com", s "b.example.com"]⟩ .hostKey := by decide
+
+/-- **nebula_ssh_fields.** A certificate issued for a Nebula token is a *host* certificate signed
+    with the host key; its principals are the token's — each of which is the Nebula certificate's
+    name or parses as one of its addresses — or, when the token lists none, the certificate's name
+    and addresses; the key id is the token's or the subject. -/
+theorem nebula_ssh_fields (ca : CAKeys) (t : Token) (o : Oidc) (req : Opts) (key : KeyClass)
+    (c : Cert) (sg : Signer) (h : sshSign ca .nebula t o req key = .issued c sg) :
+    c.ct = 2 ∧ sg = .hostKey ∧
+    ((t.ssh = none ∧ c.keyID = t.sub ∧ c.principals = o.nebName :: o.nebIPs) ∨
+     (∃ opts, t.ssh = some opts ∧ nebPrincipalsValid o opts.principals = true ∧
+        c.keyID = (if opts.keyID = [] then t.sub else opts.keyID) ∧
+        c.principals = (if opts.principals.length > 0 then opts.principals else o.nebName :: o.nebIPs))) := by
+  obtain ⟨p, hp, hs⟩ := sshSign_issued h
+  obtain ⟨_, _, ht, hsel, _⟩ := signSSH_issued hs
+  obtain ⟨h1, h2, h3⟩ := authorizeClaims_nebula (authorizeSign_ok hp).2
+  simp only [applyTemplate, h1] at ht
+  injection ht with ht
+  subst ht
+  have hct : p.data.ct.num = 2 := by rw [h2]; rfl
+  refine ⟨hct, ?_, ?_⟩
+  · rcases selectSigner_inr hsel with ⟨h4, _, _⟩ | ⟨_, h5, _⟩
+    · simp only at h4; omega
+    · exact h5
+  · rcases h3 with ⟨a, b, c⟩ | ⟨opts, a, b, _, d, e⟩
+    · exact .inl ⟨a, b, c⟩
+    · exact .inr ⟨opts, a, b, d, e⟩
+
+/-- every principal the Nebula validator lets through is the certificate's name or one of its
+    addresses (as canonical text of `net.ParseIP`) -/
+theorem nebPrincipalsValid_sound (o : Oidc) (ps : List Str)
+    (h : nebPrincipalsValid o ps = true) :
+    ∀ x ∈ ps.zip o.prinIP, x.1 = o.nebName ∨ ∃ a, x.2 = some a ∧ a ∈ o.nebIPs := by
+  intro x hx
+  unfold nebPrincipalsValid at h
+  rw [List.all_eq_true] at h
+  have := h x hx
+  obtain ⟨p, ip⟩ := x
+  simp only [Bool.or_eq_true, decide_eq_true_eq] at this
+  rcases this with h1 | h1
+  · exact .inl h1
+  · cases ip with
+    | none => simp at h1
+    | some a => exact .inr ⟨a, rfl, by simpa using h1⟩
+
+example :
+    sshSign ⟨true, true, true, false⟩ .nebula ⟨s "host-a.neb", none⟩ ⟨[], [], s "host-a.neb", [s "10.1.1.7"], []⟩
+      ⟨s "user", s "x", [s "root"]⟩ .ok
+    = .issued ⟨2, s "host-a.neb", [s "host-a.neb", s "10.1.1.7"]⟩ .hostKey := by decide
+
+/-- a Nebula token that lists a foreign principal is not even authorized -/
+example :
+    sshSign ⟨true, true, true, false⟩ .nebula ⟨s "host-a.neb", some ⟨[], [], [s "other.neb"]⟩⟩
+      ⟨[], [], s "host-a.neb", [s "10.1.1.7"], [none]⟩ ⟨[], [], []⟩ .ok = .refused 401 := by decide
 
 /-! ## 2. request_cannot_extend -/
 
@@ -148,6 +236,7 @@ theorem request_cannot_extend (ca : CAKeys) (prov : Prov) (hp : prov ≠ .oidc t
       cases a with
       | true => exact absurd rfl hp
       | false => have := (authorizeSign_ok hp1).2; simp [authorizeClaims] at this; rw [← this]
+    | nebula => exact (authorizeClaims_nebula (authorizeSign_ok hp1).2).1
   simp only [applyTemplate, hd] at ht ht'
   rw [ht] at ht'; injection ht' with hcc
   subst hcc
@@ -231,9 +320,24 @@ theorem empty_principal_refused (ca : CAKeys) (prov : Prov) (t : Token) (o : Oid
     principal in the token's `step.ssh.principals` reaches the certificate whenever the store
     accepts an empty key (no database configured). -/
 theorem token_empty_principal_issued :
-    ∃ ca t req c sg, sshSign ca .jwk t ⟨[], []⟩ req .ok = .issued c sg ∧ [] ∈ c.principals :=
-  ⟨⟨true, true, false⟩, ⟨s "alice", some ⟨s "user", [], [[]]⟩⟩, ⟨[], [], []⟩, ⟨1, s "alice", [[]]⟩, .userKey,
+    ∃ ca t req c sg, sshSign ca .jwk t ⟨[], [], [], [], []⟩ req .ok = .issued c sg ∧ [] ∈ c.principals :=
+  ⟨⟨true, true, false, false⟩, ⟨s "alice", some ⟨s "user", [], [[]]⟩⟩, ⟨[], [], []⟩, ⟨1, s "alice", [[]]⟩, .userKey,
     by decide, by decide⟩
+
+/-- the witness above with the repaired validator: refused -/
+example :
+    sshSign ⟨true, true, false, true⟩ .jwk ⟨s "alice", some ⟨s "user", [], [[]]⟩⟩ ⟨[], [], [], [], []⟩ ⟨[], [], []⟩ .ok
+    = .refused 403 := by decide
+
+/-- **no_empty_principal.** With the repaired `sshCertDefaultValidator` (which refuses any `""` among
+    the certificate's principals) no issued certificate has an empty principal — for every
+    provisioner, token, request and template. -/
+theorem no_empty_principal (ca : CAKeys) (prov : Prov) (t : Token) (o : Oidc)
+    (req : Opts) (key : KeyClass) (c : Cert) (sg : Signer) (hfix : ca.emptyPrincipalCheck = true)
+    (h : sshSign ca prov t o req key = .issued c sg) : [] ∉ c.principals := by
+  obtain ⟨p, _, hs⟩ := sshSign_issued h
+  obtain ⟨_, _, _, _, _, _, _, hep⟩ := signSSH_issued hs
+  exact hep hfix
 
 /-- **no_empty_principal_partial.** Under the extra hypothesis that the store refuses empty keys
     (bbolt) or that the token lists no empty principal, no issued certificate has one. -/
@@ -243,7 +347,7 @@ theorem no_empty_principal_partial (ca : CAKeys) (prov : Prov) (hp : prov = .jwk
     (h : sshSign ca prov t o req key = .issued c sg) : [] ∉ c.principals := by
   obtain ⟨p, hp', hs⟩ := sshSign_issued h
   have hsub := (authorizeSign_ok hp').1
-  obtain ⟨_, _, _, _, _, _, hst⟩ := signSSH_issued hs
+  obtain ⟨_, _, _, _, _, _, hst, _⟩ := signSSH_issued hs
   rcases hx with hx | hx
   · intro hm
     have : c.principals.any (fun x => decide (x = [])) = true := by
@@ -277,12 +381,15 @@ theorem missing_key_refused (ca : CAKeys) (prov : Prov) (t : Token) (o : Oidc) (
   · exact ⟨fun hf => by simp [h3] at hf, fun _ => by omega⟩
   · exact ⟨fun _ => by omega, fun hf => by simp [h3] at hf⟩
 
-example : sshSign ⟨true, false, true⟩ .jwk ⟨s "h", some ⟨s "host", [], []⟩⟩ ⟨[], []⟩ ⟨[], [], []⟩ .ok = .refused 501 := by decide
+example : sshSign ⟨true, false, true, false⟩ .jwk ⟨s "h", some ⟨s "host", [], []⟩⟩ ⟨[], [], [], [], []⟩ ⟨[], [], []⟩ .ok = .refused 501 := by decide
 
 /-! ## 5. pop_requirements, renew_keeps -/
 
+/-- permissions used by the examples: a critical option and no extension (typical host certificate) -/
+def pEx : Perms := ⟨[(s "force-command", s "/bin/true")], []⟩
+
 theorem popIssue_issued {cfg : PopCfg} {c : PopCert} {rev : Bool} {key : KeyClass} {rk : Bool}
-    {c' : Cert} {p : Nat} {sg : Signer} (h : popIssue cfg c rev key rk = .issued c' p sg) :
+    {c' : Cert} {p : Perms} {sg : Signer} (h : popIssue cfg c rev key rk = .issued c' p sg) :
     c.hasValidity = true ∧ rev = false ∧ selectSigner cfg.ca c.ct (if rk then 400 else 500) = .inr sg ∧
     c' = ⟨c.ct, c.keyID, c.principals⟩ ∧ p = c.perms := by
   unfold popIssue at h
@@ -341,7 +448,7 @@ theorem popAuthorize_true {cfg : PopCfg} {op : PopOp} {c : PopCert} {t : PopTok}
     under the certificate's own key (issuer, time, audience in order), which is not revoked and
     has a validity period. -/
 theorem pop_requirements_renew (cfg : PopCfg) (c : PopCert) (t : PopTok) (rev : Bool)
-    (c' : Cert) (p : Nat) (sg : Signer) (h : popRenew cfg c t rev = .issued c' p sg) :
+    (c' : Cert) (p : Perms) (sg : Signer) (h : popRenew cfg c t rev = .issued c' p sg) :
     c.ct = 2 ∧ c.sigHost = true ∧ t.sigOK = true ∧ t.claimsOK = true ∧ t.audOK = true ∧
     rev = false ∧ c.hasValidity = true ∧ cfg.disableRenewal = false ∧ c.notYet = false := by
   unfold popRenew at h
@@ -357,7 +464,7 @@ theorem pop_requirements_renew (cfg : PopCfg) (c : PopCert) (t : PopTok) (rev : 
     · cases h
 
 theorem pop_requirements_rekey (cfg : PopCfg) (c : PopCert) (t : PopTok) (rev : Bool) (key : KeyClass)
-    (c' : Cert) (p : Nat) (sg : Signer) (h : popRekey cfg c t rev key = .issued c' p sg) :
+    (c' : Cert) (p : Perms) (sg : Signer) (h : popRekey cfg c t rev key = .issued c' p sg) :
     c.ct = 2 ∧ c.sigHost = true ∧ t.sigOK = true ∧ t.claimsOK = true ∧ t.audOK = true ∧
     rev = false ∧ c.hasValidity = true ∧ c.notYet = false ∧ c.expired = false := by
   unfold popRekey at h
@@ -385,7 +492,7 @@ theorem pop_requirements_revoke (cfg : PopCfg) (c : PopCert) (t : PopTok)
 /-- **renew_keeps.** The renewed / rekeyed certificate keeps type, key id, principals and options
     of the old one and is signed with the host key. -/
 theorem renew_keeps (cfg : PopCfg) (c : PopCert) (t : PopTok) (rev : Bool)
-    (c' : Cert) (p : Nat) (sg : Signer) (h : popRenew cfg c t rev = .issued c' p sg) :
+    (c' : Cert) (p : Perms) (sg : Signer) (h : popRenew cfg c t rev = .issued c' p sg) :
     c' = ⟨c.ct, c.keyID, c.principals⟩ ∧ p = c.perms ∧ sg = .hostKey ∧ cfg.ca.host = true := by
   have hreq := pop_requirements_renew cfg c t rev c' p sg h
   unfold popRenew at h
@@ -399,7 +506,7 @@ theorem renew_keeps (cfg : PopCfg) (c : PopCert) (t : PopTok) (rev : Bool)
     · cases h
 
 theorem rekey_keeps (cfg : PopCfg) (c : PopCert) (t : PopTok) (rev : Bool) (key : KeyClass)
-    (c' : Cert) (p : Nat) (sg : Signer) (h : popRekey cfg c t rev key = .issued c' p sg) :
+    (c' : Cert) (p : Perms) (sg : Signer) (h : popRekey cfg c t rev key = .issued c' p sg) :
     c' = ⟨c.ct, c.keyID, c.principals⟩ ∧ p = c.perms ∧ sg = .hostKey ∧ cfg.ca.host = true := by
   have hreq := pop_requirements_rekey cfg c t rev key c' p sg h
   unfold popRekey at h
@@ -413,13 +520,13 @@ theorem rekey_keeps (cfg : PopCfg) (c : PopCert) (t : PopTok) (rev : Bool) (key 
     · cases h
 
 example :
-    popRenew ⟨⟨true, true, true⟩, false, false⟩ ⟨2, s "h1", [s "h.example.com"], 7, false, true, false, false, true⟩
+    popRenew ⟨⟨true, true, true, false⟩, false, false⟩ ⟨2, s "h1", [s "h.example.com"], pEx, false, true, false, false, true⟩
       ⟨true, true, true, true, false⟩ false
-    = .issued ⟨2, s "h1", [s "h.example.com"]⟩ 7 .hostKey := by decide
+    = .issued ⟨2, s "h1", [s "h.example.com"]⟩ pEx .hostKey := by decide
 
 /-- a host certificate signed with the *user* CA key is not accepted -/
 example :
-    popRenew ⟨⟨true, true, true⟩, false, false⟩ ⟨2, s "h1", [], 7, true, false, false, false, true⟩
+    popRenew ⟨⟨true, true, true, false⟩, false, false⟩ ⟨2, s "h1", [], pEx, true, false, false, false, true⟩
       ⟨true, true, true, true, false⟩ false = .refused := by decide
 
 /-! ## 6. OIDC -/
@@ -453,42 +560,42 @@ theorem oidc_nonadmin_fields (ca : CAKeys) (t : Token) (o : Oidc) (req : Opts) (
     the second one asks for other principals and another key id -/
 example :
     let t : Token := ⟨s "alice", some ⟨s "user", [], []⟩⟩
-    sshSign ⟨true, true, true⟩ .jwk t ⟨[], []⟩ ⟨[], [], []⟩ .ok = .issued ⟨1, s "alice", [s "alice"]⟩ .userKey ∧
-    sshSign ⟨true, true, true⟩ .jwk t ⟨[], []⟩ ⟨s "user", s "root", [s "root"]⟩ .ok = .issued ⟨1, s "alice", [s "alice"]⟩ .userKey := by
+    sshSign ⟨true, true, true, false⟩ .jwk t ⟨[], [], [], [], []⟩ ⟨[], [], []⟩ .ok = .issued ⟨1, s "alice", [s "alice"]⟩ .userKey ∧
+    sshSign ⟨true, true, true, false⟩ .jwk t ⟨[], [], [], [], []⟩ ⟨s "user", s "root", [s "root"]⟩ .ok = .issued ⟨1, s "alice", [s "alice"]⟩ .userKey := by
   decide
 
 /-- a request that tries to add a principal to the token's list is refused -/
 example :
-    sshSign ⟨true, true, true⟩ .x5c ⟨s "alice", some ⟨s "user", [], [s "alice"]⟩⟩ ⟨[], []⟩
+    sshSign ⟨true, true, true, false⟩ .x5c ⟨s "alice", some ⟨s "user", [], [s "alice"]⟩⟩ ⟨[], [], [], [], []⟩
       ⟨[], [], [s "alice", s "root"]⟩ .ok = .refused 403 := by decide
 
 /-- empty principal in the request (empty_principal_refused) -/
 example :
-    sshSign ⟨true, true, true⟩ .jwk ⟨s "alice", some ⟨s "user", [], []⟩⟩ ⟨[], []⟩
+    sshSign ⟨true, true, true, false⟩ .jwk ⟨s "alice", some ⟨s "user", [], []⟩⟩ ⟨[], [], [], [], []⟩
       ⟨[], [], [s "alice", []]⟩ .ok = .refused 400 := by decide
 
 /-- rekey of a valid host certificate (pop_requirements_rekey / rekey_keeps hypotheses are satisfiable) -/
 example :
-    popRekey ⟨⟨true, true, true⟩, false, false⟩ ⟨2, s "h1", [s "h.example.com"], 7, false, true, false, false, true⟩
+    popRekey ⟨⟨true, true, true, false⟩, false, false⟩ ⟨2, s "h1", [s "h.example.com"], pEx, false, true, false, false, true⟩
       ⟨true, true, true, true, false⟩ false .ok
-    = .issued ⟨2, s "h1", [s "h.example.com"]⟩ 7 .hostKey := by decide
+    = .issued ⟨2, s "h1", [s "h.example.com"]⟩ pEx .hostKey := by decide
 
 /-- a user certificate signed by the user key authorizes its own revocation, not a renewal -/
 example :
-    let c : PopCert := ⟨1, s "alice", [s "alice"], 7, true, false, false, false, true⟩
-    popAuthorize ⟨⟨true, true, true⟩, false, false⟩ .revoke c ⟨true, true, true, true, true⟩ = true ∧
-    popRenew ⟨⟨true, true, true⟩, false, false⟩ c ⟨true, true, true, true, true⟩ false = .refused := by decide
+    let c : PopCert := ⟨1, s "alice", [s "alice"], pEx, true, false, false, false, true⟩
+    popAuthorize ⟨⟨true, true, true, false⟩, false, false⟩ .revoke c ⟨true, true, true, true, true⟩ = true ∧
+    popRenew ⟨⟨true, true, true, false⟩, false, false⟩ c ⟨true, true, true, true, true⟩ false = .refused := by decide
 
 /-- revoked host certificate: no renewal -/
 example :
-    popRenew ⟨⟨true, true, true⟩, false, false⟩ ⟨2, s "h1", [], 7, false, true, false, false, true⟩
+    popRenew ⟨⟨true, true, true, false⟩, false, false⟩ ⟨2, s "h1", [], pEx, false, true, false, false, true⟩
       ⟨true, true, true, true, false⟩ true = .refused := by decide
 
 /-- OIDC non-administrator asking for a host certificate and foreign principals -/
 example :
-    sshSign ⟨true, true, true⟩ (.oidc false) ⟨s "123", none⟩ ⟨s "a@example.com", [s "a", s "a@example.com"]⟩
+    sshSign ⟨true, true, true, false⟩ (.oidc false) ⟨s "123", none⟩ ⟨s "a@example.com", [s "a", s "a@example.com"], [], [], []⟩
       ⟨[], s "root", [s "root"]⟩ .ok
     = .issued ⟨1, s "a@example.com", [s "a", s "a@example.com"]⟩ .userKey ∧
-    sshSign ⟨true, true, true⟩ (.oidc false) ⟨s "123", none⟩ ⟨s "a@example.com", [s "a", s "a@example.com"]⟩
+    sshSign ⟨true, true, true, false⟩ (.oidc false) ⟨s "123", none⟩ ⟨s "a@example.com", [s "a", s "a@example.com"], [], [], []⟩
       ⟨s "host", [], []⟩ .ok = .refused 403 := by decide
 end Verif.SSH
